@@ -133,7 +133,7 @@ pub fn plan(tier: Tier, seed: u64) -> Value {
             9 => Op::PSub { key: rng.usize_below(2), from: rng.below(4), window: *rng.pick(&[1u64, 2, 1000]) },
             10 => Op::SSub { stream: rng.usize_below(streams), from: rng.below(3), window: *rng.pick(&[1u64, 3, 1000]) },
             11 => Op::Ack { sub: rng.usize_below(4), unknown: rng.chance(1, 8) },
-            _ => Op::Invalid { kind: rng.below(12) },
+            _ => Op::Invalid { kind: rng.below(15) },
         };
         ops.push(op);
     }
@@ -963,6 +963,10 @@ fn run(plan: C22Plan) -> RunOutcome {
                     8 => vec![b"EMAPPEND".to_vec(), b"zzz".to_vec(), s.clone(), b"Evt".to_vec()],
                     9 => vec![b"ESVER".to_vec()],
                     10 => vec![b"EPSEQ".to_vec(), b"70000".to_vec()],
+                    // a partition id the cluster does not have: an error, never another partition's data
+                    12 => vec![b"EPSEQ".to_vec(), (plan.partitions as u32 + (plan.seed % 7) as u32).to_string().into_bytes()],
+                    13 => vec![b"EPSCAN".to_vec(), (plan.partitions as u32 * (1 + (plan.seed % 5) as u32)).to_string().into_bytes(), b"-".to_vec(), b"+".to_vec()],
+                    14 => vec![b"EPSEQ".to_vec(), b"65535".to_vec()],
                     _ => vec![b"EAPPEND".to_vec(), s.clone(), b"Evt".to_vec(), b"EVENT_ID".to_vec(), b"1234".to_vec()],
                 };
                 match exchange_with(&mut cluster, &mut client, &mut rng, args.clone(), None) {
